@@ -29,7 +29,7 @@ from glue.core import message as M  # noqa: E402
 # label codes (the Lean model works with numbers)
 # ---------------------------------------------------------------------------------------------
 
-USER = {1: "a", 2: "b", 3: "c", 4: "d", 5: "ghost"}
+USER = {0: "new", 1: "a", 2: "b", 3: "c", 4: "d", 5: "ghost"}   # 0 = a ComponentID made by the caller for one call
 USER_INV = {v: k for k, v in USER.items()}
 _PIX = re.compile(r"^Pixel Axis (\d+)(?: \[([xyz])\])?$")
 _WORLD = re.compile(r"^World (\d+)$")
@@ -107,6 +107,7 @@ class Run(object):
         self.num = {id(c): i for i, c in enumerate(self.pool)}
         self.tokens = {}                      # id(coords object) -> token
         self.keep = []                        # everything created, kept alive for the whole case
+        self.fresh = None                     # the ComponentID made for the current call (ref "x")
 
     # -- numbering ---------------------------------------------------------------------------
     def n(self, cid):
@@ -123,6 +124,13 @@ class Run(object):
         lean/Drivers/C17.lean."""
         kind, k = r
         d = self.d
+        if kind == "x":
+            # a brand-new ComponentID (no parent, label "new"), the same object within one call; it is
+            # numbered like every other object: when it first shows up in an observation / a message
+            if self.fresh is None:
+                self.fresh = ComponentID(label_str(0))
+                self.keep.append(self.fresh)
+            return self.fresh
         if kind == "o":
             return self.pool[k]
         if kind == "f":
@@ -169,6 +177,7 @@ class Run(object):
     # -- one call -------------------------------------------------------------------------------
     def _call(self, tag, rop):
         d = self.d
+        self.fresh = None
         if isinstance(rop, str):
             if rop == "attach":
                 self.dc.append(d)
@@ -215,6 +224,8 @@ class Run(object):
                 new = cur[:-1] + [cur[0]] if cur else []
             elif k == "foreign":
                 new = cur[:-1] + [self.pool[3]]
+            elif k == "fresh":
+                new = cur[:-1] + [self.ref(["x", 0])]
             else:
                 _, i, j = k
                 new = list(cur)
@@ -224,11 +235,6 @@ class Run(object):
             d.reorder_components(new)
         elif name == "updateId":
             old = self.ref(rop[1])
-            for comp in d._components.values():
-                if isinstance(comp, DerivedComponent) and any(c is old for c in comp.link.get_from_ids()):
-                    return  # inputs of derived components: C14 (F14), not exercised here
-            if any(c is old and isinstance(comp, DerivedComponent) for c, comp in d._components.items()):
-                return  # same reason: the link manager reads the derived component's own link
             new = self.ref(rop[2])
             if new is None:
                 return
@@ -263,9 +269,7 @@ class Run(object):
             else:
                 d.coords = self.new_coords(d.ndim if d.shape != () else 1, 1000 + tag)
         elif name == "rename":
-            c = self.ref(rop[1])
-            if any(c is x for x in d.components):
-                c.label = label_str(rop[2])
+            self.ref(rop[1]).label = label_str(rop[2])
         elif name == "setLabel":
             d.label = dlabel_str(rop[1])
         elif name == "setLinked":
@@ -376,9 +380,9 @@ PROBE = [1, 2, 3, 110, 121, 200]
 
 def alphabet(clean, level):
     """Calls offered at every position of the exhaustive part.
-    clean = references `m`/`n`/`f` (never a coordinate component / an id in use where a new one is
-    expected); not clean = the abusive calls of F20-F22 (repaired: refused, or replaced and announced);
-    level 0 = core, 1 = wider."""
+    clean = references `m`/`n`/`f`/`x` (never a coordinate component / an id in use where a new one is
+    expected; `x` = a ComponentID made for the call); not clean = the abusive calls of F20-F22 (repaired:
+    refused, or replaced and announced); level 0 = core, 1 = wider."""
     if clean:
         A = [
             ["add", 1, "same"], ["add", 2, "same"], ["add", 1, "bump"],
@@ -393,6 +397,10 @@ def alphabet(clean, level):
             ["setCoords", "new"], ["setCoords", "none"],
             ["rename", ["m", 0], 2], ["setLabel", 1],
             "attach", "register",
+            # formerly outside the theorems: 0-d arrays, ComponentIDs the dataset has never seen, ids that
+            # are not components, components without an array
+            ["add", 2, []], ["remove", ["x", 0]], ["updateId", ["m", 0], ["x", 0]],
+            ["updateComponents", [[["c", 0], "same"]]], ["rename", ["o", 0], 2], ["updateId", ["o", 3], ["f", 1]],
         ]
         if level >= 1:
             A += [
@@ -414,6 +422,19 @@ def alphabet(clean, level):
                 ["rename", ["m", 0], 110],
                 ["setLabel", 0],
                 ["setLinked", [0]], ["setLinked", [0, 2]], ["setLinked", []],
+                # 0-d
+                ["add", 1, []], ["addAt", ["f", 1], []], ["updateComponents", [[["n", 0], []]]],
+                ["updateFrom", 1, [1], [], "none"], ["updateFrom", 2, [1, 2], [], "new"],
+                # brand-new / foreign ids
+                ["addAt", ["x", 0], "same"], ["addAt", ["x", 0], []], ["reorder", "fresh"],
+                ["updateId", ["x", 0], ["f", 1]], ["updateId", ["x", 0], ["x", 0]], ["updateId", ["o", 3], ["x", 0]],
+                ["addDerived", False, 2, [["x", 0]]], ["addDerived", True, 2, [["x", 0]]], ["addDerived", False, 2, [["o", 3]]],
+                ["updateComponents", [[["x", 0], "same"]]], ["rename", ["x", 0], 1], ["rename", ["o", 1], 1],
+                ["rename", ["o", 3], 3],
+                # update_components on components without an array (F24), update_id of (inputs of) derived components
+                ["updateComponents", [[["p", 0], "same"]]], ["updateComponents", [[["m", 2], "same"]]],
+                ["updateComponents", [[["n", 0], "same"], [["w", 0], "same"]]], ["updateComponents", [[["o", 0], "same"]]],
+                ["updateId", ["m", 2], ["f", 1]], ["updateId", ["m", 1], ["x", 0]],
             ]
         return A
     # abuse stratum: remove_component of coordinate ids (F20), add_component onto ids in use (F21),
@@ -434,6 +455,9 @@ PREFIXES = [
     ["attach", ["add", 1, [2, 2]], ["setCoords", "new"]],
     ["register", ["add", 1, "same"], ["add", 2, "same"], ["addDerived", True, 3, [["m", 0]]]],
     ["register", ["setCoords", "new"], ["addAt", ["f", 0], "same"], ["addAt", ["f", 2], "same"]],
+    # a 0-d dataset; a dataset one of whose former ids (pool id 0) was removed, another (pool id 1) re-assigned
+    ["register", ["add", 1, []], ["addDerived", False, 3, [["m", 0]]]],
+    ["register", ["addAt", ["f", 0], "same"], ["addAt", ["f", 1], "same"], ["remove", ["o", 0]], ["updateId", ["o", 1], ["f", 2]]],
 ]
 
 
@@ -441,12 +465,14 @@ def rand_ref(rng, clean):
     """Any component."""
     r = rng.random()
     if clean:
-        if r < 0.7:
+        if r < 0.66:
             return ["m", rng.randint(0, 4)]
-        if r < 0.8:
+        if r < 0.76:
             return ["p", rng.randint(0, 1)]
-        if r < 0.88:
+        if r < 0.84:
             return ["w", rng.randint(0, 1)]
+        if r < 0.89:
+            return ["x", 0]
         return ["o", rng.choice([0, 1, 2, 3])]
     if r < 0.62:
         return ["c", rng.randint(0, 5)]
@@ -461,33 +487,36 @@ def rand_shape(rng, valid=0.85):
     r = rng.random()
     if r < valid:
         return "same"
-    return rng.choice(["bump", "grow", "shrink", [2, 2], [3], [2, 1, 2]])
+    return rng.choice(["bump", "grow", "shrink", [2, 2], [3], [2, 1, 2], [], []])
 
 
 def rand_op(rng, clean):
     """One call; `clean` = no coordinate id / id in use where F20-F22 were (see `alphabet`)."""
     k = rng.random()
     if k < 0.16:
-        return ["add", rng.choice([1, 2, 3, 1, 2, 3, 110, 200]), rand_shape(rng) if rng.random() < 0.8 else rng.choice([[3], [2, 2], [2, 1, 2], [4]])]
+        return ["add", rng.choice([1, 2, 3, 1, 2, 3, 110, 200]), rand_shape(rng) if rng.random() < 0.8 else rng.choice([[3], [2, 2], [2, 1, 2], [4], []])]
     if k < 0.22:
         r = ["f", rng.choice([0, 1, 2])] if clean or rng.random() < 0.4 else rand_ref(rng, False)
+        if rng.random() < 0.12:
+            r = ["x", 0]
         return ["addAt", r, rand_shape(rng)]
     if k < 0.31:
         deps = [rand_ref(rng, True) for _ in range(rng.choice([1, 1, 2]))]
         return ["addDerived", rng.random() < 0.7, rng.choice([1, 2, 3, 4]), deps]
     if k < 0.42:
         if clean:
-            r = ["m", rng.randint(0, 4)] if rng.random() < 0.9 else ["o", 3]
+            r = ["m", rng.randint(0, 4)] if rng.random() < 0.88 else rng.choice([["o", 3], ["x", 0], ["o", 0]])
         else:
             r = rand_ref(rng, False)
         return ["remove", r]
     if k < 0.50:
-        return ["reorder", rng.choice(["rev", "rot", "same", "rev", "rot", "short", "dup", "foreign",
+        return ["reorder", rng.choice(["rev", "rot", "same", "rev", "rot", "short", "dup", "foreign", "fresh",
                                        ["swap", rng.randint(0, 5), rng.randint(0, 5)]])]
     if k < 0.58:
         old = rand_ref(rng, clean)
         if clean:
-            new = ["f", rng.choice([0, 1, 2])] if rng.random() < 0.93 else old
+            u = rng.random()
+            new = ["f", rng.choice([0, 1, 2])] if u < 0.8 else ["x", 0] if u < 0.93 else old
         else:
             new = ["f", rng.choice([0, 1, 2])] if rng.random() < 0.4 else rand_ref(rng, False)
         return ["updateId", old, new]
@@ -495,7 +524,10 @@ def rand_op(rng, clean):
         n = rng.choice([0, 1, 1, 2, 3])
         ts = []
         for _ in range(n):
-            r = ["n", rng.randint(0, 3)] if rng.random() > 0.1 else ["o", 3]
+            u = rng.random()
+            # mostly arrays; sometimes an id that is no component, or a component without an array (F24)
+            r = ["n", rng.randint(0, 3)] if u > 0.2 else ["o", rng.choice([3, 3, 0])] if u > 0.12 else \
+                ["x", 0] if u > 0.09 else rng.choice([["m", rng.randint(0, 3)], ["p", 0], ["w", 0]])
             ts.append([r, rand_shape(rng, 0.9)])
         return ["updateComponents", ts]
     if k < 0.76:
@@ -505,7 +537,7 @@ def rand_op(rng, clean):
             labels = list(dict.fromkeys(labels))
         if rng.random() < 0.05:
             labels.append(rng.choice([110, 200]))
-        return ["updateFrom", rng.choice([0, 1, 2]), labels, rng.choice(["same", "same", "bump", "grow", "shrink", [2, 2], [5]]),
+        return ["updateFrom", rng.choice([0, 1, 2]), labels, rng.choice(["same", "same", "same", "bump", "grow", "shrink", [2, 2], [5], []]),
                 rng.choice(["none", "none", "new", "cur"])]
     if k < 0.84:
         return ["setCoords", rng.choice(["new", "new", "none", "cur"])]
@@ -523,7 +555,9 @@ def _tuple(x):
 
 
 class Seq(Family):
-    """Clean stratum: no call removes a coordinate component or targets an id in use (F20-F22)."""
+    """Clean stratum: no call removes a coordinate component or targets an id in use (F20-F22); everything
+    else - 0-d arrays, ComponentIDs the dataset has never seen, ids that are not (or no longer) components,
+    components without an array, inputs of derived components - is exercised."""
     name = "seq"
     exhaustive = False
     batch = 400
@@ -598,7 +632,7 @@ class Seq(Family):
             if rng.random() < 0.7:
                 rops.append(rng.choice(["register", "attach", "register"]))
             if rng.random() < 0.8:
-                rops.append(["add", rng.choice([1, 2, 3]), rng.choice([[3], [3], [2, 2], [2, 1, 2], [4, 1]])])
+                rops.append(["add", rng.choice([1, 2, 3]), rng.choice([[3], [3], [3], [2, 2], [2, 2], [2, 1, 2], [4, 1], []])])
             while len(rops) < ln:
                 rops.append(rand_op(rng, self.clean or rng.random() < 0.75))
             pool = POOL if rng.random() < 0.8 else [rng.choice([1, 2, 3]) for _ in range(3)] + [5]
@@ -652,11 +686,12 @@ class SeqX(Seq):
 PROP = Property(
     id="C17",
     title="A dataset stays structurally consistent and announces every structural change",
-    theorems=["C17.inv_init", "C17.inv_spec", "C17.find_spec", "C17.step_inv_partial", "C17.inv_reachable_partial",
-              "C17.messages_exact_partial", "C17.trace_ok_partial",
-              "C17.remove_coordinate_breaks", "C17.silent_replace", "C17.update_id_merges"],
+    theorems=["C17.inv_init", "C17.inv_spec", "C17.find_spec", "C17.step_inv", "C17.inv_reachable",
+              "C17.messages_exact", "C17.trace_ok",
+              "C17.remove_coordinate_breaks", "C17.silent_replace", "C17.update_id_merges",
+              "C17.scalar_dataset_breaks", "C17.rename_of_removed_id"],
     families=[Seq(), SeqX()],
     trusted_base=["CPython dict insertion order / object identity, the Hub delivering messages in broadcast order to a catch-all listener (delay_callbacks only postpones), IdentityCoordinates axis names"],
     assumptions=["the positional-argument resolution rules are the same in lean/Drivers/C17.lean and harness/props/c17.py (any difference shows as a model disagreement)"],
-    rule="histories of Data mutation calls: every 1- and 2-call continuation of 6 set-up prefixes over a 66-call alphabet (3-call continuations over the 27-call core alphabet in thorough) + seeded random histories of 3..12 calls in clean / mixed / abusive (coordinate ids removed, ids in use re-added or targeted by update_id: F20-F22) strata; non-trivial = at least two calls that announced something or raised",
+    rule="histories of Data mutation calls: every 1- and 2-call continuation of 8 set-up prefixes (incl. a 0-d dataset and a dataset with a removed / a re-assigned id) over a 92-call alphabet (second call from the 31-call core alphabet in quick; 3-call continuations over the core alphabet in thorough) + seeded random histories of 3..12 calls in clean / mixed / abusive (coordinate ids removed, ids in use re-added or targeted by update_id: F20-F22) strata; arguments include 0-d arrays, ComponentIDs made for the call, ids that are not (or no longer) components, components without an array, inputs and ids of derived components; non-trivial = at least two calls that announced something or raised",
 )
